@@ -573,6 +573,20 @@ Theorem C01_read_fault_never_success :
 Proof. exact read_fault_never_success. Qed.
 Print Assumptions C01_read_fault_never_success.
 
+
+(* pruning under a failing read (the clause seeded C01-10 broke, for EVERY ledger and limit): Storage.Create has two
+   reads - the history, the deployed lookup of removeLeastRecent.  Whichever fails, either it is not reached (history
+   within the limit: the fault-free run) or Create answers an error and the state - ledger, cluster, counters, trace -
+   is exactly what it was: no revision pruned, in particular never the deployed one, and no record created *)
+Theorem C01_prune_read_fault_changes_nothing :
+  forall (K : Type) (kh : forall e : eff, K -> K * resp e * list kev) (dresp : forall e, resp e)
+         (f : sfaults) (r : release) (m n : nat) (s : rstate K),
+    crash f = None -> dead s = false -> n < 2 ->
+    let res := run K kh dresp f (rfail n (storage_createR r (S m))) s in
+    res = run K kh dresp f (storage_create r (S m)) s \/ res = (s, SFail).
+Proof. exact prune_read_fault. Qed.
+Print Assumptions C01_prune_read_fault_changes_nothing.
+
 (* and along every history whose operations carry a crash point or a read fault *)
 Theorem C01_read_or_crash_history_ledger :
   forall (K : Type) (kh : forall e : eff, K -> K * resp e * list kev) (dresp : forall e, resp e)
